@@ -650,41 +650,116 @@ def structure_key(mol):
     return best
 
 
+VALENCE = {'C': 4, 'N': 3, 'O': 2, 'S': 2, 'F': 1}
+
+
+def valence_ok_decorations(rng, edges, n, elems, limit):
+    """decorations (elements x bond orders) of one skeleton that respect the usual valences, exhaustively when few,
+    else sampled; charges are added to a fraction afterwards"""
+    import itertools as it
+    verts = list(range(1, n + 1))
+    all_dec = []
+    total = (len(elems) ** n) * (3 ** len(edges))
+    if total <= limit:
+        combos = ((el, od) for el in it.product(elems, repeat=n) for od in it.product((1, 2, 3), repeat=len(edges)))
+        exhaustive = True
+    else:
+        combos = ((tuple(rng.choice(elems) for _ in verts), tuple(rng.choice((1, 1, 1, 2, 2, 3)) for _ in edges))
+                  for _ in range(limit * 3))
+        exhaustive = False
+    seen = set()
+    for el, od in combos:
+        if (el, od) in seen:
+            continue
+        seen.add((el, od))
+        load = {v: 0 for v in verts}
+        for (x, y), o in zip(edges, od):
+            load[x] += o
+            load[y] += o
+        if all(load[v] <= VALENCE[el[v - 1]] for v in verts):
+            all_dec.append((el, od))
+            if len(all_dec) >= limit:
+                break
+    return all_dec, exhaustive and len(all_dec) < limit
+
+
 def injectivity(ctx):
+    """(a) non-stereo: exhaustively enumerated small skeletons x valence-valid element/bond-order decorations (+ charged
+    variants): equal canonical strings only for structures with the same brute-force canonical form (independent of
+    chython's canonicaliser).  (b) stereo: every stereoisomer (all 2^k label assignments) of sampled molecules is written
+    and re-read; by `injective_of_lossless` a collision between different configurations would show as a re-read
+    difference for one of them."""
     rng = ctx.rng
     seen = {}
     total = 0
+    q = ctx.quick
     elems = ['C', 'N', 'O']
-    sizes = (2, 3, 4) if ctx.quick else (2, 3, 4, 5)
-    for n in sizes:
+    all_exhaustive = True
+    for n in ((2, 3, 4) if q else (2, 3, 4, 5)):
         for edges in molgen.unlabeled_small_graphs(n):
-            decos = list(itertools.product(elems, repeat=n))
-            if len(decos) > (40 if ctx.quick else 250):
-                decos = rng.sample(decos, 40 if ctx.quick else 250)
-            for el in decos:
-                for _ in range(2):
-                    orders = {e: rng.choice([1, 1, 2, 3]) for e in edges}
-                    charges = {v: rng.choice([0, 0, 0, 1, -1]) for v in range(1, n + 1)}
+            decs, ex = valence_ok_decorations(rng, list(edges), n, elems, (120 if q else (4000 if n <= 4 else 300)))
+            all_exhaustive = all_exhaustive and ex
+            for el, od in decs:
+                variants = [dict()]
+                if rng.random() < 0.3:
+                    variants.append({rng.randint(1, n): rng.choice([1, -1])})
+                for charges in variants:
                     try:
-                        m = molgen.from_edges(edges, dict(zip(range(1, n + 1), el)), orders, charges, n)
+                        m = molgen.from_edges(edges, dict(zip(range(1, n + 1), el)), dict(zip(edges, od)), charges, n)
                     except Exception:  # noqa
                         continue
                     if not judgeable(m):
                         continue
                     try:
-                        s = str(m)
-                    except Exception:  # noqa
+                        st = str(m)
+                    except Exception as e:  # noqa
+                        ctx.broke('relational', 'writer-raises', f'{el} {od} {charges}: {type(e).__name__}')
                         continue
                     k = structure_key(m)
                     total += 1
-                    ctx.count(('I', s, k))
-                    if s in seen and seen[s][0] != k:
-                        other = seen[s][1]
-                        ctx.fail('C02/collision', f'two different structures share the canonical string {s!r}',
-                                 {'kind': 'collision', 'mol': wire.mol_to_ints(m), 'mol2': other})
-                    seen.setdefault(s, (k, wire.mol_to_ints(m)))
+                    ctx.count(('I', st, k))
+                    if st in seen and seen[st][0] != k:
+                        ctx.cov['disagreements_checked'] += 1
+                        ctx.fail('C02/collision', f'two different structures share the canonical string {st!r}',
+                                 {'kind': 'collision', 'mol': wire.mol_to_ints(m), 'mol2': seen[st][1]})
+                    seen.setdefault(st, (k, wire.mol_to_ints(m)))
     ctx.dist('injectivity-structures', total)
     ctx.dist('injectivity-distinct-strings', len(seen))
+    ctx.dist('injectivity-distinct-structures', len({v[0] for v in seen.values()}))
+    ctx.cov['injectivity_small_graphs_exhaustive'] = bool(all_exhaustive)
+    # (b) stereoisomers
+    pool = [(nm, m) for nm, m in stereo_extra() + molgen.handmade() + molgen.corpus(rng, 40 if q else 400) if has_stereo(m)]
+    n_iso = 0
+    strings = {}
+    for nm, m in pool:
+        centres = [('a', n) for n, a in m._atoms.items() if a.stereo is not None] + \
+                  [('b', x, y) for x, y, b in m.bonds() if b.stereo is not None]
+        if not centres or len(centres) > (4 if q else 7):
+            continue
+        for mask in range(1 << len(centres)):
+            c = m.copy()
+            for i, ce in enumerate(centres):
+                if mask >> i & 1:
+                    if ce[0] == 'a':
+                        c._atoms[ce[1]]._stereo = not c._atoms[ce[1]]._stereo
+                    else:
+                        bd = c._bonds[ce[1]][ce[2]]
+                        bd._stereo = not bd._stereo
+            c.flush_cache()
+            line, text, order, _ = real_write(c, '', 0)
+            n_iso += 1
+            ctx.count(('S', nm, mask))
+            if text is None:
+                ctx.broke('relational', 'writer-raises', f'stereoisomer {mask} of {nm}: {line}')
+                continue
+            d = judge(c, text, order, '') if judgeable(c) else []
+            strings.setdefault(nm, set()).add(text)
+            if d:
+                ctx.cov['disagreements_checked'] += 1
+                ctx.fail(signature_of(d, c, ''), f'stereoisomer {mask} of {nm} written {text!r} re-reads with differences {d[:5]}',
+                         {'kind': 'roundtrip', 'mol': wire.mol_to_ints(c), 'spec': '', 'draw_seed': 0, 'first': None})
+    ctx.dist('stereoisomers-written-and-reread', n_iso)
+    ctx.dist('stereoisomer-distinct-strings', sum(len(v) for v in strings.values()))
 
 
 # ------------------------------------------------------------------------------------------------
